@@ -75,4 +75,33 @@ def run (cfg : Cfg) : St → List Ev → St × List Out
 
 def init (t0 : Int) : St := { last := t0 }
 
+/-! ### A server: one monitor per accepted connection, one housekeeping tick for all of them
+
+`tcp/server`, `dtls/server`: every accepted connection gets its monitor from the configured factory; the function handed to
+the periodic runner walks `pkg/connections` and calls `CheckExpirations(now)` on every connection. -/
+
+inductive SrvEv
+  | conn (i : Nat) (e : Ev)    -- an event on the i-th accepted connection (message / pong received)
+  | tickAll (t : Int)          -- the server's housekeeping tick
+  deriving Repr, DecidableEq
+
+/-- apply `f` to the i-th element -/
+def modifyAt (f : St → St) : Nat → List St → List St
+  | _, [] => []
+  | 0, s :: r => f s :: r
+  | i + 1, s :: r => s :: modifyAt f i r
+
+def srvStep (cfg : Cfg) (ss : List St) : SrvEv → List St
+  | .conn i e => modifyAt (fun s => (step cfg s e).1) i ss
+  | .tickAll t => ss.map (fun s => (step cfg s (.tick t)).1)
+
+def srvRun (cfg : Cfg) (ss : List St) (evs : List SrvEv) : List St := evs.foldl (srvStep cfg) ss
+
+/-- what the i-th connection sees of a server history -/
+def projEv (i : Nat) : SrvEv → List Ev
+  | .conn j e => if j = i then [e] else []
+  | .tickAll t => [.tick t]
+
+def proj (i : Nat) (evs : List SrvEv) : List Ev := evs.flatMap (projEv i)
+
 end CoapVerif.Model.Monitor
